@@ -3,7 +3,9 @@ From DNS Require Export Model.Values Gen.Tables Gen.Formats.
 From DNS Require Import Model.Dec.   (* lookup, TYPE_OPT, CLASS_IN, enum tables *)
 
 Record est := { e_buf : bytes;                       (* Encoder.bytes *)
-                e_idx : list (name * (N * N)) }.     (* Encoder.domain_name_index: name -> (offset, depth) *)
+                e_idx : list (name * (N * N));       (* Encoder.domain_name_index: name -> (offset, depth) *)
+                e_names : list (N * name) }.         (* GHOST: (offset, name) of every domain_name() call,
+                                                        newest first; read by no model function *)
 
 Inductive eres (A : Type) :=
 | EOk (a : A) (s : est)
@@ -27,10 +29,10 @@ Definition ebind {A B} (m : EM A) (f : A -> EM B) : EM B :=
 Definition efail {A} (e : err) : EM A := fun _ => EErr e.
 Notation "x <-- m ;; f" := (ebind m (fun x => f)) (at level 61, m at next level, right associativity).
 
-Definition e_init : est := {| e_buf := []; e_idx := [] |}.
+Definition e_init : est := {| e_buf := []; e_idx := []; e_names := [] |}.
 
 (* ---- src/encode/helpers.rs, encoder.rs ---- *)
-Definition put (b : bytes) : EM unit := fun s => EOk tt {| e_buf := e_buf s ++ b; e_idx := e_idx s |}.
+Definition put (b : bytes) : EM unit := fun s => EOk tt {| e_buf := e_buf s ++ b; e_idx := e_idx s; e_names := e_names s |}.
 Definition eu8 (n : N) : EM unit := put (u8b n).
 Definition eu16 (n : N) : EM unit := put (u16b n).
 Definition eu32 (n : N) : EM unit := put (u32b n).
@@ -46,11 +48,11 @@ Definition patch (i : N) (b : bytes) (buf : bytes) : bytes :=
 
 Definition set_u16 (n index : N) : EM unit := fun s =>
   let len := lenN (e_buf s) in
-  if index + 2 - 1 <? len then EOk tt {| e_buf := patch index (u16b n) (e_buf s); e_idx := e_idx s |}
+  if index + 2 - 1 <? len then EOk tt {| e_buf := patch index (u16b n) (e_buf s); e_idx := e_idx s; e_names := e_names s |}
   else EErr (XNotEnoughBytes, [len; index]).
 Definition set_u8 (n index : N) : EM unit := fun s =>
   let len := lenN (e_buf s) in
-  if index + 1 - 1 <? len then EOk tt {| e_buf := patch index (u8b n) (e_buf s); e_idx := e_idx s |}
+  if index + 1 - 1 <? len then EOk tt {| e_buf := patch index (u8b n) (e_buf s); e_idx := e_idx s; e_names := e_names s |}
   else EErr (XNotEnoughBytes, [len; index]).
 
 Definition estring (b : bytes) : EM unit :=
@@ -86,7 +88,8 @@ Definition elabel (l : label) : EM N := index <-- get_offset ;; _ <-- estring l 
 Definition merge_index (local : list (name * N)) (recursion : N) : EM unit := fun s =>
   if cmp_apply OP_merge_rec recursion DOMAIN_NAME_MAX_RECURSION then EErr (XMaxRecursion, [recursion])
   else EOk tt {| e_buf := e_buf s;
-                 e_idx := map (fun p => (fst p, (snd p, recursion))) local ++ e_idx s |}.
+                 e_idx := map (fun p => (fst p, (snd p, recursion))) local ++ e_idx s;
+                 e_names := e_names s |}.
 
 Fixpoint enc_name_loop (labels : name) (local : list (name * N)) : EM unit :=
   match labels with
@@ -100,7 +103,9 @@ Fixpoint enc_name_loop (labels : name) (local : list (name * N)) : EM unit :=
       enc_name_loop rest (if cmp_apply OP_index_offset index ENC_MAX_OFFSET then (labels, index) :: local else local)
     end
   end.
-Definition enc_domain_name (n : name) : EM unit := enc_name_loop n [].
+Definition log_name (n : name) : EM unit := fun s =>
+  EOk tt {| e_buf := e_buf s; e_idx := e_idx s; e_names := (lenN (e_buf s), n) :: e_names s |}.
+Definition enc_domain_name (n : name) : EM unit := _ <-- log_name n ;; enc_name_loop n [].
 
 (* ---- src/encode/rr/subtypes.rs ---- *)
 Fixpoint addr_prefix_loop (op : cmp) (step : N) (oct : bytes) (prefix : N) : res bytes :=
